@@ -545,7 +545,10 @@ def write_evidence(mod, prop, tier, seed, aggs, det_pairs, det_mismatch, n_viol,
         "level": mod.LEVEL,
         "coverage": {
             "evaluations": runs,
-            "distinct_nontrivial": len(covers),
+            # one run can reach several of the states that the rule calls distinct (several
+            # observations per run): never claim more distinct cases than runs
+            "distinct_nontrivial": min(len(covers), runs),
+            "distinct_cover_keys": len(covers),
             "rule": mod.RULE,
             "samples": samples if samples else [{"note": "no sample recorded"}],
             "legs": legs,
